@@ -69,6 +69,12 @@ def _history(args):
         def write_if_changed(fn, text):
             if not os.path.exists(fn) or open(fn).read() != text:
                 open(fn, 'w').write(text)
+                if rng.random() < 0.5:
+                    # the new content arrives with an *old* modification time (a revision restored with cp -p / tar / rsync, a clock set back): file
+                    # times say nothing about content, the cache must still notice the change
+                    import time as _time
+                    t_ = _time.time() - rng.choice([3600, 86400 * 400, 5])
+                    os.utime(fn, (t_, t_))
         def build(req, imp, cache):
             # directory A holds variant `imp` of the module, directory B the next one: same grammar text + different import_paths = different parser
             write_if_changed(os.path.join(dirs['A'], 'mod.lark'), IMPORTS[imp])
